@@ -4,7 +4,8 @@ against it in /repo, and store it under /verif/seeded/<id>/.  Usage: tools/seed_
 import json, os, shutil, subprocess, sys
 VERIF = os.path.dirname(os.path.dirname(os.path.abspath(__file__)))
 REPO = "/repo"
-MUT = "/tmp/mut"
+MUT = os.environ.get("SEED_MUT", "/tmp/mut")
+TAG = os.environ.get("SEED_TAG", "")
 
 def sh(cmd, cwd=None, timeout=3000):
     return subprocess.run(cmd, shell=True, capture_output=True, text=True, cwd=cwd, timeout=timeout)
@@ -25,13 +26,13 @@ def main():
         wt = f"{MUT}/{prop}"
         for m in ("m1", "m2"):
             src = f"{MUT}/{prop}.out/{m}"
-            override = f"{VERIF}/seeded/{prop}-{m}/patch.diff"
+            override = f"{VERIF}/seeded/{prop}-{TAG}{m}/patch.diff"
             patch = override if os.path.exists(override) else f"{src}/patch.diff"
             demo = f"{src}/demo.py"
             if not os.path.exists(patch) or not os.path.exists(demo):
                 continue
             sh(f"git checkout -q -f --detach {head} && git clean -fdq", cwd=wt)
-            meta = dict(id=f"{prop}-{m}", breaks=prop, base_commit=head[:7])
+            meta = dict(id=f"{prop}-{TAG}{m}", breaks=prop, base_commit=head[:7])
             clean = sh(f"PYTHONPATH={wt} /venv/bin/python {demo}", cwd="/tmp")
             meta["demo_on_clean_tree_exit"] = clean.returncode
             if not apply(wt, patch):
@@ -40,17 +41,17 @@ def main():
                 continue
             tests = sh(f"PYTHONPATH={wt} /venv/bin/python -m pytest -q -p no:cacheprovider 2>&1 | tail -1", cwd=wt)
             d = sh(f"PYTHONPATH={wt} /venv/bin/python {demo}", cwd="/tmp")
-            os.makedirs(f"{VERIF}/seeded/{prop}-{m}", exist_ok=True)
-            sh(f"git diff -- nsl nslc.py nslr.py > /tmp/mut/rebased.diff", cwd=wt)      # binary-safe (CRLF files)
+            os.makedirs(f"{VERIF}/seeded/{prop}-{TAG}{m}", exist_ok=True)
+            sh(f"git diff -- nsl nslc.py nslr.py > {MUT}/rebased.diff", cwd=wt)      # binary-safe (CRLF files)
             sh("git checkout -- . ; git clean -fdq", cwd=wt)
             meta["tests_with_change"] = tests.stdout.strip()
             meta["demo_with_change_exit"] = d.returncode
             meta["demo_with_change_output"] = (d.stdout + d.stderr).strip()[-400:]
             confirmed = "82 passed" in tests.stdout and d.returncode == 1 and clean.returncode == 0
             meta["confirmed"] = confirmed
-            outdir = f"{VERIF}/seeded/{prop}-{m}"
+            outdir = f"{VERIF}/seeded/{prop}-{TAG}{m}"
             os.makedirs(outdir, exist_ok=True)
-            shutil.copy("/tmp/mut/rebased.diff", f"{outdir}/patch.diff")
+            shutil.copy(f"{MUT}/rebased.diff", f"{outdir}/patch.diff")
             shutil.copy(demo, f"{outdir}/demo.py")
             notes = f"{src}/notes.md"
             if os.path.exists(notes):
